@@ -143,6 +143,7 @@ def explore_resolver(fx, rn):
     def hook(fn, args, node, interp):
         s2 = T.short(fn, 2)
         if s2 == "RpslEvaluator::with_connection":
+            interp.trace.append(("call", fn, (args[0],), node.get("sp")))
             return interp.apply(args[1], [args[0], ("sym", "CONN")], node, 0)
         if s2 in ("Connection::pipeline_from_initial",):
             # the per-member closure is applied to a symbolic member response
